@@ -17,8 +17,14 @@ package c07
 //	          apricot instance serving every caller — the situation in production, where all
 //	          environments of a core (and every remote client) share one local.Service — so
 //	          calls OVERLAP INSIDE one Service object
+//	(rpc k)   caller c calls NewRunNumber on the remote (apricot://) client number c mod k, i.e.
+//	          through the REAL gRPC hop — remote.RemoteService → loopback TCP → the handler
+//	          RpcServer.NewRunNumber of remote.NewServer → local.Service number c mod k → Consul
+//	          (see remote.go): the layout of production, where the core holds no local.Service
 //
-// The model is blind to the route: every caller runs read ; cas itself, whatever it goes through.
+// The model is blind to the route as far as the protocol goes: every caller runs read ; cas
+// itself, whatever it goes through. The hop is an error boundary on top: a call that ends in an
+// error comes back with that error and NO number (Model/RunRemote.lean `viaHop`).
 //
 // SILENT CALLERS. A caller that has been let go and shows no event (no request, no return) within
 // the ceiling is marked `silent` and the schedule goes on without it: it is blocked on something
@@ -80,6 +86,7 @@ type callResult struct {
 type rig struct {
 	consul  *fakeConsul
 	svcs    [nSlots]*local.Service
+	chains  [nSlots]*chain // remote client → gRPC server → svcs[i], built on first use (remote.go)
 	srcs    [nSlots]*cfgbackend.ConsulSource
 	foreign *cfgbackend.ConsulSource
 	kv      *api.KV
@@ -113,16 +120,32 @@ func newRig() (*rig, error) {
 	return g, nil
 }
 
-func (g *rig) close() { g.consul.shutdown() }
+// close: parked requests are released first (the handlers behind them return, and with them the
+// RPCs), then the gRPC chains go, then the simulator.
+func (g *rig) close() {
+	g.consul.release()
+	g.closeChains()
+	g.consul.shutdown()
+}
 
-// call runs the real code for caller c. shared = k of the route `(svc k)`, 0 = no route given:
-// even slots go through apricot's local.Service (the path the core takes), odd slots call the
-// backend directly (one of them with a leading slash, which formatKey trims).
-func (g *rig) call(c, shared int) callResult {
+// route = the optional 4th element of a protocol input.
+type route struct {
+	kind string // "" (none) | "svc" | "rpc"
+	k    int
+}
+
+// call runs the real code for caller c. No route given: even slots go through apricot's
+// local.Service (the path the core takes with an embedded apricot), odd slots call the backend
+// directly (one of them with a leading slash, which formatKey trims).
+func (g *rig) call(c int, rt route) callResult {
 	var v uint32
 	var err error
-	if shared > 0 {
-		v, err = g.svcs[c%shared].NewRunNumber()
+	switch rt.kind {
+	case "svc":
+		v, err = g.svcs[c%rt.k].NewRunNumber()
+		return callResult{v, err}
+	case "rpc":
+		v, err = g.chains[c%rt.k].cli.NewRunNumber() // built by runCase before any caller is launched
 		return callResult{v, err}
 	}
 	slot := c % nSlots
@@ -163,6 +186,10 @@ func errClass(err error) string {
 	if errors.As(err, &ne) {
 		return "parse"
 	}
+	// an error that crossed the gRPC hop is the handler's error as text (remote.go)
+	if msg, crossed, _ := throughHop(err); crossed {
+		return classOfText(msg)
+	}
 	msg := err.Error()
 	switch {
 	case msg == "cannot write back incremented CAS key":
@@ -177,6 +204,9 @@ func errClass(err error) string {
 
 // transportTrouble: the loopback connection itself failed — infrastructure, not behaviour.
 func transportTrouble(err error) bool {
+	if _, _, transport := throughHop(err); transport {
+		return true
+	}
 	msg := err.Error()
 	for _, s := range []string{"dial tcp", "connection re", "EOF", "timeout", "broken pipe", "use of closed"} {
 		if strings.Contains(msg, s) {
@@ -190,7 +220,7 @@ type controller struct {
 	g       *rig
 	store   *kvStore
 	cs      []*callerRT
-	shared  int      // k of the route `(svc k)`, 0 = none
+	rt      route    // the route, kind "" = none
 	nSteps  int      // length of the schedule
 	returns chan int // a caller's goroutine has returned (its result is in its resCh)
 }
@@ -308,9 +338,9 @@ func (k *controller) launch(ci int, step int) error {
 	c.resCh = make(chan callResult, 1)
 	c.start = step
 	c.live = true
-	returns, shared, g := k.returns, k.shared, k.g
+	returns, rt, g := k.returns, k.rt, k.g
 	go func() {
-		c.resCh <- g.call(ci, shared)
+		c.resCh <- g.call(ci, rt)
 		returns <- ci
 	}()
 	return k.settle(ci, step)
@@ -383,13 +413,20 @@ func (g *rig) runCase(input string) (string, error) {
 	if err != nil {
 		return "", err
 	}
-	shared := 0
+	var rt route
 	if len(in.List) >= 4 {
-		rt := in.At(3)
-		if !rt.IsList || len(rt.List) != 2 || rt.At(0).Str() != "svc" || rt.At(1).Int() < 1 || rt.At(1).Int() > nSlots {
-			return "", fmt.Errorf("bad route %s", rt.String())
+		rn := in.At(3)
+		if !rn.IsList || len(rn.List) != 2 || (rn.At(0).Str() != "svc" && rn.At(0).Str() != "rpc") || rn.At(1).Int() < 1 || rn.At(1).Int() > nSlots {
+			return "", fmt.Errorf("bad route %s", rn.String())
 		}
-		shared = rt.At(1).Int()
+		rt = route{kind: rn.At(0).Str(), k: rn.At(1).Int()}
+		if rt.kind == "rpc" {
+			for i := 0; i < rt.k; i++ {
+				if _, err := g.chain(i); err != nil {
+					return "", err // infrastructure ⇒ inconclusive
+				}
+			}
+		}
 	}
 	// drain anything a previous (failed) case may have left behind
 	for drained := false; !drained; {
@@ -400,7 +437,7 @@ func (g *rig) runCase(input string) (string, error) {
 			drained = true
 		}
 	}
-	k := &controller{g: g, store: store, shared: shared, nSteps: len(in.At(2).List), returns: make(chan int, n+1)}
+	k := &controller{g: g, store: store, rt: rt, nSteps: len(in.At(2).List), returns: make(chan int, n+1)}
 	for i := 0; i < n; i++ {
 		k.cs = append(k.cs, &callerRT{start: -1, end: -1, trace: sx.L()})
 	}
